@@ -201,7 +201,7 @@ def probe(res, rng, n):
                                                input=dict(model="GAM(s(0, n_splines=6), distribution='%s', link='%s'%s)" % (dname, lname, '' if supplied is None else ', scale=%r' % supplied),
                                                           fit_number=rep + 1, X=X[:, 0].tolist(), y=y.tolist(), weights=wts.tolist()),
                                                observed=dict(statistics_scale=got, distribution_scale=float(gam.distribution.scale)), expected=want))
-    # sampler moments: supporting statistical test (not a proof): 40000 draws, 7-sigma concentration bound on mean and variance
+    # sampler moments: supporting statistical test (not a proof): 40000 draws, 7-sigma bounds on mean and variance (exact fourth central moment)
     nprs = np.random.RandomState(rng.randrange(1 << 30))
     state = np.random.get_state()
     try:
@@ -217,9 +217,22 @@ def probe(res, rng, n):
                 V = float(d.V(mu=np.array([mu]))[0])
                 var = scale * V
                 m_err = abs(draws.mean() - mu) / math.sqrt(var / N)
-                v_rel = abs(draws.var() - var) / var
+                # standard error of the sample variance from the exact fourth central moment of the family (skewed families: far from sqrt(2/N))
+                if fam == 'NormalDist':
+                    mu4 = 3 * var ** 2
+                elif fam == 'PoissonDist':
+                    mu4 = mu + 3 * mu ** 2
+                elif fam == 'BinomialDist':
+                    pq = (mu / L) * (1 - mu / L)
+                    mu4 = L * pq * (1 + 3 * (L - 2) * pq)
+                elif fam == 'GammaDist':
+                    k_, th_ = 1.0 / scale, mu * scale
+                    mu4 = 3 * k_ * (k_ + 2) * th_ ** 4
+                else:
+                    mu4 = var ** 2 * (3 + 15 * mu * scale)
+                v_err = abs(draws.var() - var) / (math.sqrt(max(mu4 - var ** 2, 0.0) / N) + var / N)
                 res.case(('sample-moments', fam, scale, L, mu))
-                if m_err > 7 or v_rel > 0.12:
+                if m_err > 7 or v_err > 7:
                     res.violations.append(dict(what='sampler moments differ from mean mu / variance scale * V(mu) (statistical test, 40000 draws)', finding=None,
                                                input=dict(family=fam, scale=scale, levels=L, mu=mu),
                                                observed=dict(mean=float(draws.mean()), var=float(draws.var())), expected=dict(mean=mu, var=var)))
